@@ -39,6 +39,11 @@ CHECKS['C11'] = ('3/C11', 'The real duct-wall solvers run with all temperatures,
                  'power symbolic on a real bundle (1-3 ducts) and on both low-fidelity regions; both flux boundary conditions, the '
                  'mid-wall closed form and the unheated ordering are SMT queries per wall cell.')
 
+CHECKS['C08'] = ('3/C08', 'calculate_geometry runs with symbolic dimensions (tiling identities and the GEOM invariant are polynomial '
+                 'identities decided by z3, ring counts enumerated); the index tables of the real Subchannel/PinLattice constructors '
+                 'are asserted point-wise and the quantified topology statements decided with the cell/pin index as a solver variable '
+                 '(finite-domain, exhaustive over the enumerated ring/duct counts).')
+
 NOT_APPLICABLE = {
     'C16': ('No symbolic dimension for a solver: process schedules/multiprocessing/file output, bitwise IEEE determinism, and '
             'object-identity/type mutation of the input dictionary on `is None`/key-presence branches (DESIGN section 4).'),
